@@ -1,0 +1,11 @@
+//go:build verif
+
+package yoda
+
+import (
+	abci "github.com/cometbft/cometbft/abci/types"
+)
+
+// HandleTransaction runs yoda's handleTransaction on a transaction result, as the event loop does for every
+// transaction of a new block (it starts one handleRequest goroutine per request event).
+func (v *VerifContext) HandleTransaction(tx abci.TxResult) { handleTransaction(v.c, v.l, tx) }
